@@ -162,7 +162,113 @@ def run_c05(tier, seed):
     return out.finish()
 
 
+def tx_body_alphabet(k):
+    return [
+        op('set', k=k, v=5, ttl=[], tag=0), op('set', k=k, v=F1, ttl=[], tag=1), op('set', k=k, v=F2, ttl=[7], tag=0),
+        op('add', k=k, v=F3, ttl=[], tag=0), op('incr', k=k, d=1, df=[0]), op('get', k=k, fx=0, ft=0, mk='miss'),
+        op('get', k=k, fx=1, ft=1, mk='miss'), op('contains', k=k), op('pop', k=k, fx=0, ft=0),
+        op('delete', k=k, mk='false'), op('touch', k=k, ttl=[3]), op('len'),
+        op('push', v=6, p=[], back=1, ttl=[], tag=0), op('pull', p=[], back=0, fx=0, ft=0),
+    ]
+
+
+def tx_program(rng, nbody, nested, raise_at, inline_only=False):
+    """client 1: [txbegin body.. (nested block) .. txend|txraise] + a lookup afterwards"""
+    keys = [KA, KA, KB]
+    def pick():
+        o = rng.choice(tx_body_alphabet(rng.choice(keys)))
+        if inline_only and o['a'].get('v', 0) >= 200000:
+            o = op('set', k=o['a'].get('k', KA), v=9, ttl=[], tag=0) if o['op'] != 'push' else op('push', v=6, p=[], back=1, ttl=[], tag=0)
+        return o
+    body = [pick() for _ in range(nbody)]
+    if nested:
+        at = rng.randrange(len(body) + 1)
+        inner = [pick() for _ in range(rng.randint(1, 2))]
+        body[at:at] = [op('txbegin')] + inner + [op('txend')]
+    ops = [op('txbegin')] + body
+    if raise_at is not None:
+        # raise after the raise_at-th body element (not inside the nested block for simplicity of the plan)
+        depth, cut = 0, len(ops)
+        n = 0
+        for i, o in enumerate(ops[1:], 1):
+            if o['op'] == 'txbegin':
+                depth += 1
+            if o['op'] == 'txend':
+                depth -= 1
+            n += 1
+            if n >= raise_at:
+                cut = i + 1
+                break
+        ops = ops[:cut] + [op('txraise')]
+        # close the nested block records the driver would never reach: nothing to do, the exception unwinds
+    else:
+        ops.append(op('txend'))
+    ops.append(op('get', k=KA, fx=1, ft=1, mk='miss'))
+    if rng.random() < 0.5:
+        # the same client goes on: a failing single call and/or a second block
+        if rng.random() < 0.5:
+            ops.append(op('delete', k=[1, 122], mk='KeyError'))
+        ops += [op('txbegin'), pick(), pick(), rng.choice([op('txend'), op('txraise')])]
+        ops.append(op('get', k=KB, fx=0, ft=0, mk='miss'))
+    return ops
+
+
+def run_c06(tier, seed):
+    out = Outcome('C06', tier, seed)
+    rng = random.Random(seed * 104729 + 6)
+    jobs_dfs, jobs_rand = [], []
+    tid = 0
+    others = [[op('get', k=KA, fx=0, ft=0, mk='miss'), op('contains', k=KB)],
+              [op('set', k=KA, v=8, ttl=[], tag=0)], [op('incr', k=KB, d=1, df=[0])],
+              [op('len'), op('get', k=KB, fx=0, ft=0, mk='miss')], [op('delete', k=KA, mk='false')],
+              [op('set', k=KB, v=F3, ttl=[], tag=0), op('get', k=KA, fx=0, ft=0, mk='KeyError')],
+              [op('close'), op('get', k=KA, fx=0, ft=0, mk='miss')], [op('contains', k=KA), op('close')]]
+    n = 30 if tier == 'quick' else 600
+    for i in range(n):
+        nbody = rng.randint(1, 3)
+        raise_at = rng.choice([None, None, 1, 2, 3])
+        inline_only = rng.random() < 0.5
+        prog = {1: tx_program(rng, nbody, rng.random() < 0.35, raise_at, inline_only), 2: rng.choice(others)}
+        if rng.random() < 0.3:
+            prog[3] = rng.choice(others)
+        shared = rng.random() < 0.35
+        cfg = base_cfg(rng, shared, rng.choice(['absent', 'inline', 'file', 'both']))
+        cfg['txvia'] = rng.choice(['cache', 'cache', 'deque', 'index'])
+        jobs_dfs.append((cfg, prog, 2, 40 if tier == 'quick' else 300, seed, tid))
+        tid += 1000
+    # thread ownership: a second thread using the SAME object while the block is open
+    for other in ([op('close')], [op('set', k=KA, v=8, ttl=[], tag=0)], [op('get', k=KA, fx=0, ft=0, mk='miss'), op('close')],
+                  [op('incr', k=KB, d=1, df=[0])], [op('txbegin'), op('set', k=KB, v=2, ttl=[], tag=0), op('txend')]):
+        for st in (False, True):
+            cfg = base_cfg(rng, True, 'inline', stats=st)
+            prog = {1: [op('txbegin'), op('set', k=KA, v=6, ttl=[], tag=0), op('incr', k=KB, d=1, df=[0]),
+                        op('get', k=KA, fx=0, ft=0, mk='miss'), op('txend'), op('get', k=KB, fx=0, ft=0, mk='miss')],
+                    2: other}
+            jobs_dfs.append((cfg, prog, 2, 60 if tier == 'quick' else 400, seed, tid))
+            tid += 1000
+    m = 150 if tier == 'quick' else 3000
+    for i in range(m):
+        prog = {1: tx_program(rng, rng.randint(1, 4), rng.random() < 0.4, rng.choice([None, None, 1, 2, 3, 4]),
+                              rng.random() < 0.5),
+                2: random_program(rng, 1, 3, [KA, KB])[1]}
+        if rng.random() < 0.4:
+            prog[3] = tx_program(rng, rng.randint(1, 2), False, rng.choice([None, 1]), rng.random() < 0.5)
+        cfg = base_cfg(rng, rng.random() < 0.35, rng.choice(['absent', 'inline', 'file', 'both']))
+        cfg['txvia'] = rng.choice(['cache', 'cache', 'deque', 'index'])
+        jobs_rand.append((cfg, prog, rng.choice(['pct', 'random']), seed * 100000 + i, 0))
+    traces, verdicts = explore(out, jobs_dfs, jobs_rand)
+    report(out, 'C06', traces, verdicts, known_findings('C06'))
+    out.notes['programs'] = len(jobs_dfs) + len(jobs_rand)
+    out.notes['blocks_raised'] = sum(1 for t in traces for e in t['ev'] if e.get('op') == 'txraise')
+    out.notes['traces_stopped_at_known_finding'] = sum(1 for v in verdicts.values() if v['ok'] and v.get('known'))
+    out.assumptions += ['FanoutCache.transact is exercised by the C13 check; here Cache/Deque/Index.transact',
+                        'a trace that hits a listed known finding is not judged beyond that event']
+    return out.finish()
+
+
 def run(prop, tier, seed):
     if prop == 'C05':
         return run_c05(tier, seed)
+    if prop == 'C06':
+        return run_c06(tier, seed)
     raise MachineryError('no concurrent check for %s' % prop)
